@@ -164,8 +164,10 @@ class Ctx:
             "violations": len(self.violations),
         }
         if self.only is None:
-            os.makedirs(os.path.join(VERIF, "evidence"), exist_ok=True)
-            with open(os.path.join(VERIF, "evidence", self.prop + ".json"), "w") as f:
+            # X-series = specification coverage beyond the listed properties (DESIGN section 11)
+            evdir = os.path.join(VERIF, "evidence", "ext") if self.prop.startswith("X") else os.path.join(VERIF, "evidence")
+            os.makedirs(evdir, exist_ok=True)
+            with open(os.path.join(evdir, self.prop + ".json"), "w") as f:
                 json.dump(ev, f, indent=1, default=str)
         shutil.rmtree(self.workdir, ignore_errors=True)
         print("%s %s: evaluations=%d distinct=%d states=%s traces=%d violations=%d known=%d wall=%.1fs" % (
